@@ -151,7 +151,7 @@ def gen_cases(ctx):
 
 
 def run(ctx):
-    ctx.prove(["PvModel.Props.C04", "PvModel.Props.T04"])
+    ctx.prove(["PvModel.Props.C04", "PvModel.Props.T04", "PvModel.Props.R04"])
     run_suite(ctx, "C04")
     termination_probe(ctx)
     real_runs(ctx)
